@@ -5,7 +5,7 @@
 //! the full audit runs; a failed operation is retried after drop + gc whenever the capacity
 //! suffices for it (demand measured on a twin manager with ample capacity).
 
-use oxidd::{HasLevel, HasWorkers, Manager, ManagerRef};
+use oxidd::{BooleanFunction, HasLevel, HasWorkers, Manager, ManagerRef};
 use oxidd_core::function::INodeOfFunc;
 
 use crate::hist::*;
@@ -198,4 +198,88 @@ pub fn aborts(ctx: &mut Ctx) {
             ctx.eval();
         }
     }
+}
+
+
+/// DDDMP import under a node-capacity sweep: a multi-root file (exported from a BCDD, so that
+/// non-first roots are complemented, and from a BDD) is imported into managers of every
+/// capacity 0..demand+2: the importer must return an error or the right functions, release
+/// everything it acquired on failure, and leave exact reference counts.
+fn import_sweep<S: BoolKind, T: BoolKind>(ctx: &mut Ctx, rng: &mut Rng, files: usize)
+where
+    for<'id> MgrOf<'id, S>: HasWorkers,
+    for<'x> INodeOfFunc<'x, S::F>: HasLevel,
+    for<'id> MgrOf<'id, T>: HasWorkers,
+    for<'x> INodeOfFunc<'x, T::F>: HasLevel,
+{
+    use crate::tt::Tt;
+    for fi in 0..files {
+        let n = rng.range(3, 4) as u32;
+        let src = setup::<S>(1 << 12, 64, 1, n);
+        let tables: Vec<Tt> = (0..3).map(|_| Tt::random_biased(n, rng)).collect();
+        let roots: Vec<S::F> = tables.iter().map(|t| build_shannon::<S>(&src, t)).collect();
+        // export through the kind's exporter (ASCII or binary)
+        let ascii = rng.bool();
+        let rrefs: Vec<&S::F> = roots.iter().collect();
+        let Some(bytes) = S::export(&src, &rrefs, if ascii { 0 } else { 1 }) else { continue };
+        // demand of the import in an ample manager
+        let big = setup::<T>(1 << 12, 64, 1, n);
+        let Ok(fs) = T::import(&big, &bytes) else {
+            ctx.violation(&format!("{}:import:error-with-ample-capacity", T::NAME), format!("file {fi} exported from {}", S::NAME));
+            continue;
+        };
+        for (f, t) in fs.iter().zip(&tables) {
+            ctx.eval();
+            let it = interp_tt::<T>(f);
+            if it != *t {
+                ctx.violation(&format!("{}:import:wrong-table", T::NAME), format!("file {fi} from {}: {it} want {t}", S::NAME));
+            }
+        }
+        let demand = big.with_manager_shared(|m| m.num_inner_nodes());
+        drop(fs);
+        let lo = if T::SEM == Sem::ZeroSup { n as usize } else { 0 };
+        let mut errs = 0;
+        for cap in lo..=(demand + 2).min(99) {
+            let label = format!("c14import {}->{} file={fi} ascii={ascii} n={n} cap={cap} seed={}", S::NAME, T::NAME, ctx.seed);
+            println!("@@{{\"t\":\"case\",\"case\":{}}}", crate::ctx::json_str(&label));
+            let mut w = World::<T>::new(cap, 16, 1, n, label);
+            w.oom_ok = true;
+            let r = crate::ctx::catch(|| T::import(&w.mref, &bytes));
+            match r {
+                Err(msg) => {
+                    ctx.violation(&w.sig("import:panic-instead-of-error"), w.witness(&format!("panic: {msg} at {}", crate::ctx::last_panic_loc())));
+                    continue;
+                }
+                Ok(Err(_)) => {
+                    errs += 1;
+                    ctx.eval();
+                    if cap >= demand {
+                        ctx.violation(&w.sig("import:oom-although-capacity-suffices"), w.witness(&format!("capacity {cap} >= demand {demand}")));
+                    }
+                }
+                Ok(Ok(fs)) => {
+                    for (f, t) in fs.into_iter().zip(&tables) {
+                        w.admit(ctx, &Op::Clone(0), f, t.clone());
+                    }
+                }
+            }
+            w.trace.push(format!("import(3 roots exported from {})", S::NAME));
+            w.audit(ctx, "after import under capacity limit");
+            w.teardown(ctx);
+            ctx.distinct((S::NAME, T::NAME, fi, cap, ctx.shard));
+        }
+        ctx.count("import_capacities_swept", ((demand + 2).min(99) + 1 - lo) as u64);
+        ctx.count("import_capacities_with_oom", errs);
+    }
+}
+
+pub fn import(ctx: &mut Ctx) {
+    let mut rng = ctx.rng(0xC14_1);
+    let files = ctx.by_tier(3, 25);
+    import_sweep::<Bcdd, Bdd>(ctx, &mut rng, files);
+    import_sweep::<Bcdd, Bcdd>(ctx, &mut rng, files);
+    import_sweep::<Bdd, Bdd>(ctx, &mut rng, files);
+    import_sweep::<Bdd, Bcdd>(ctx, &mut rng, files);
+    import_sweep::<Zbdd, Zbdd>(ctx, &mut rng, files);
+    ctx.sample(|| "DDDMP import of 3-root files (exported from bcdd / bdd / zbdd, ascii or binary) into managers of every capacity 0..demand+2".into());
 }
